@@ -22,7 +22,7 @@ def run(tier):
         return f, ("accept" if p.returncode == 0 else "reject"), (err[0][-200:] if err else "")
     with ThreadPoolExecutor(max_workers=12) as ex:
         verdicts = {f: (v, why) for f, v, why in ex.map(verdict, sorted(forms))}
-    if len(forms) < 24 or all(v == "reject" for v, _ in verdicts.values()):
+    if len(forms) < 28 or all(v == "reject" for v, _ in verdicts.values()):
         raise vp.Broken("c20_forms.cpp: no form compiles: %s" % verdicts.get(0, ("", ""))[1])
     pair_events = []
     for k in range(len(forms) // 2):
@@ -32,13 +32,27 @@ def run(tier):
     dflags = []
     if any(verdicts[f][0] == "reject" for f in (3, 5)) and verdicts[1][0] == "accept":
         dflags = ["-DC20_NO_OPAQUE_PTR_INVOKE"]     # keep observing the rest of the run-time behaviour
-    drv = vp.build("cast_driver", ["cast_driver.cpp"], dflags)
+    if verdicts[25][0] == "reject" and verdicts[24][0] == "accept":
+        dflags.append("-DC20_NO_OPAQUE_ARRAY")
+    disagree = [e for e in pair_events if e["tainted"] != e["opaque"]]
+    try:
+        drv = vp.build("cast_driver", ["cast_driver.cpp"], dflags)
+    except vp.Broken:
+        if not disagree:
+            raise
+        # the run-time driver uses the very forms the compiler just rejected: judge the pairs alone
+        drv = None
     events = list(pair_events)
     tpath = os.path.join(wd, "cast.ndjson")
     seeds = [vp.seed()] + ([vp.seed() + k for k in range(1, 8)] if tier == "thorough" else [])
     allp = os.path.join(wd, "all.ndjson")
-    for sd in seeds:
+    for sd in (seeds if drv else []):
         p = vp.run([drv, tpath, str(sd)], timeout=600)
+        if p.returncode < 0:
+            # the executor died on a signal while exercising the real headers: an observation
+            events += vp.read_ndjson(tpath)
+            events.append({"e": "crash", "signal": -p.returncode, "seed": sd})
+            break
         if p.returncode != 0:
             raise vp.Broken("cast_driver rc=%d %s" % (p.returncode, p.stderr[-300:]))
         events += vp.read_ndjson(tpath)
@@ -54,12 +68,14 @@ def run(tier):
     combos = set((e["e"], e.get("cast", e.get("ty", e.get("what"))), e.get("from"), e.get("to"), e.get("src", e.get("form")))
                  for e in events)
     chk.count(evaluations=len(events), distinct=len(combos), traces=len(seeds))
-    chk.sample(events[len(pair_events) + 10])
+    if drv and len(events) > len(pair_events) + 10:
+        chk.sample(events[len(pair_events) + 10])
     chk.sample(pair_events[2])
     chk.cov["form_pairs"] = len(pair_events)
-    chk.sample([e for e in events if e["e"] == "cast"][5])
+    if drv and len([e for e in events if e["e"] == "cast"]) > 5:
+        chk.sample([e for e in events if e["e"] == "cast"][5])
     chk.cov["exhaustive"] = False
-    chk.cov["scope"] = "12 (tainted form, opaque form) program pairs judged by compile verdict; opaque round trips for 15 primitive/pointer types, a registered struct and an array; opaque vs tainted " \
+    chk.cov["scope"] = "14 (tainted form, opaque form) program pairs judged by compile verdict; opaque round trips for 15 primitive/pointer types, a registered struct and an array; opaque vs tainted " \
                        "values as callback results and invocation arguments (incl. values that must abort); 17 static, 9 " \
                        "reinterpret and 5 const cast pairs on tainted and tainted_volatile sources with boundary/random values " \
                        "and null/first/interior/last pointers"
